@@ -268,7 +268,8 @@ def gen_valid_sets(rng: random.Random, clause_states: list[dict], n: int) -> lis
 
 
 MUTATIONS = ["DropOperator", "OneSegmentCompatible", "WildcardWithOrdering", "WildcardAfterDev", "EmptyEpoch", "DoubleComma", "StrayChar",
-             "LocalWithOrdering", "InnerBlank", "DoubleOperator", "WildcardCompatible", "TrailingDot", "DoubleBang", "EmptyAlternative"]
+             "LocalWithOrdering", "InnerBlank", "DoubleOperator", "WildcardCompatible", "TrailingDot", "DoubleBang", "EmptyAlternative",
+             "FormatChars", "UrlEncoded", "BraceChars"]
 
 
 def mutate(rng: random.Random, text: str, m: str) -> str:
@@ -313,6 +314,12 @@ def mutate(rng: random.Random, text: str, m: str) -> str:
         c = op + "1!!" + base.split("!")[-1]
     elif m == "EmptyAlternative":
         c = c + "||"
+    elif m == "FormatChars":          # text that is dangerous inside %-formatting / str.format of an error message
+        c = rng.choice([op + v + "%", op + "%s", op + "%(version)s", op + v + "%d", "%" + c])
+    elif m == "UrlEncoded":
+        c = c.replace(">", "%3E").replace("<", "%3C").replace("=", "%3D") if rng.random() < 0.7 else op + v.replace(".", "%2E")
+    elif m == "BraceChars":
+        c = rng.choice([op + "{0}", op + v + "{}", op + "{version}", "{" + c + "}"])
     clauses[i] = c
     return "".join(clauses)
 
@@ -573,7 +580,7 @@ def run(pid: str, tier: str, replay: str | None = None) -> int:
             rep.count("invalid_strings", ni)
             rep.set(evaluations=total, distinct_nontrivial=len(set(t for t, _ in texts)),
                     rule="every clause of the Pep440 universe in every applicable spelling, random comma/||-joined sets of them, "
-                         "and 14 named mutations; the reference verdict is packaging.SpecifierSet per ||-alternative")
+                         "and 17 named mutations; the reference verdict is packaging.SpecifierSet per ||-alternative")
             rep.sample({"valid": valid[10:14], "mutated": [t for t, o in texts if o in MUTATIONS][:4]})
     if pid == "C06":
         r, states = _tlc(rep, "RenderSpec", UNIVERSE_RENDER_THOROUGH if thorough else UNIVERSE_QUICK, ["RenderRoundTrips"], report_violation=False)
